@@ -167,82 +167,6 @@ theorem recvRight_right_cacheFinished (st : State α) (h : st.right.cached = fal
     · rfl
     · simp [process_cacheFinished_of_not_cached _ _ _ _ _ h]
 
-/-- the right side is cached (so the left one is not) and has received all its `Terminate`s;
-    `fresh`: until the cache is full (round 1) everything cached has already been handed out -/
-structure RightDone (st : State α) (q : List (Batch α)) : Prop where
-  cached : st.right.cached = true
-  other : st.left.cached = false
-  term : st.right.missingTerm = 0
-  queue : st.qR = q
-  inst : 0 < st.left.instances
-  fresh : st.right.cacheFull = false → st.right.cache.length ≤ st.right.cachePointer
-  otherFin : st.left.cacheFinished = true
-
-theorem RightDone.isEnded {st : State α} {q} (h : RightDone st q) : st.right.isEnded = true := by
-  simp [Side.isEnded, Side.isTerminated, h.cached, h.term]
-
-theorem prepare_rightDone {st : State α} {q} (h : RightDone st q) : RightDone (prepare st) q := by
-  unfold prepare
-  split
-  · refine ⟨by simp [h.cached], by simp [h.other], by simp [h.term], h.queue, by simp [h.inst], ?_, ?_⟩
-    · simp [Side.reset, h.cached]
-    · simp [reset_cacheFinished_of_not_cached _ h.other, h.otherFin]
-  · exact h
-
-theorem recvLeft_rightDone {st : State α} {q} (h : RightDone st q) : RightDone (recvLeft st).1 q :=
-  ⟨by simp [h.cached], by simp [h.other], by simp [h.term], by simp [h.queue], by simp [h.inst],
-   by simpa using h.fresh, by rw [recvLeft_left_cacheFinished _ h.other]; exact h.otherFin⟩
-
-/-- after `prepare`: if the loop side has ended, the cache is being replayed -/
-theorem prepare_rightDone_replaying {st : State α} {q} (h : RightDone st q)
-    (he : (prepare st).left.isEnded = true) :
-    (prepare st).right.cacheFull = true ∧ (prepare st).right.cacheFinished = false := by
-  unfold prepare at he ⊢
-  split at he
-  · -- reset: the loop side is not ended any more
-    simp [Side.isEnded, h.other, Side.reset] at he
-    have := h.inst; omega
-  · rename_i hn
-    rw [if_neg hn]
-    cases hcf : st.right.cacheFinished with
-    | false =>
-      refine ⟨?_, rfl⟩
-      cases hfull : st.right.cacheFull with
-      | true => rfl
-      | false => have := h.fresh hfull; simp [Side.cacheFinished] at hcf; omega
-    | true =>
-      exfalso; apply hn
-      simp [he, h.isEnded, hcf, h.otherFin]
-
-theorem selectBody_prepare_rightDone {st : State α} {q} (h : RightDone st q) :
-    RightDone (selectBody (prepare st)).1 q := by
-  have hp := prepare_rightDone h
-  unfold selectBody
-  split
-  · simp only [hp.other, Bool.false_eq_true, if_false]
-    have := recvLeft_rightDone hp
-    exact ⟨this.cached, this.other, this.term, this.queue, this.inst, this.fresh, this.otherFin⟩
-  · rw [if_neg (by simp [hp.other])]
-    split
-    · refine ⟨by simp [hp.cached], hp.other, by simp [hp.term], hp.queue, hp.inst, ?_, hp.otherFin⟩
-      rename_i hc
-      simp at hc
-      simp [Side.nextCached]
-      split <;> simp [hc.1.2]
-    · rename_i hnr
-      unfold selectRecv
-      split
-      · rename_i he
-        have := prepare_rightDone_replaying h he
-        exfalso; apply hnr; simp [hp.cached, this.1, this.2]
-      · rw [if_pos hp.isEnded]; exact recvLeft_rightDone hp
-
-theorem select_rightDone {st : State α} {q} (h : RightDone st q) : RightDone (select st).1 q := by
-  unfold select
-  split
-  · exact h
-  · exact selectBody_prepare_rightDone h
-
 /-- a predicate on the receiver part that `select` preserves is preserved by a whole pump -/
 theorem pump_preserves (P : State α → Prop) (hsel : ∀ st, P st → P (select st).1)
     (hupd : ∀ st s b, P st → P { st with start := s, alreadyTimedOut := b }) :
@@ -270,10 +194,6 @@ theorem pump_leftDone {q} (fuel : Nat) (st : State α) (h : LeftDone st q) : Lef
   pump_preserves (fun st => LeftDone st q) (fun _ h => select_leftDone h)
     (fun _ _ _ h => ⟨h.cached, h.term, h.queue⟩) fuel st h
 
-theorem pump_rightDone {q} (fuel : Nat) (st : State α) (h : RightDone st q) : RightDone (pump fuel st).1 q :=
-  pump_preserves (fun st => RightDone st q) (fun _ h => select_rightDone h)
-    (fun _ _ _ h => ⟨h.cached, h.other, h.term, h.queue, h.inst, h.fresh, h.otherFin⟩) fuel st h
-
 theorem runFrom_leftDone (ops : List (Op α)) : ∀ (st : State α) (i : Nat) (q : List (Batch α)),
     LeftDone st q → ∃ added, LeftDone (runFrom st i ops).1 (q ++ added) := by
   induction ops with
@@ -298,31 +218,6 @@ theorem runFrom_leftDone (ops : List (Op α)) : ∀ (st : State α) (i : Nat) (q
         exact ⟨a, ha⟩
       · exact ⟨[], by simpa using hp⟩
 
-theorem runFrom_rightDone (ops : List (Op α)) : ∀ (st : State α) (i : Nat) (q : List (Batch α)),
-    RightDone st q → ∃ added, RightDone (runFrom st i ops).1 (q ++ added) := by
-  induction ops with
-  | nil => intro st i q h; exact ⟨[], by simpa [runFrom] using h⟩
-  | cons op ops ih =>
-    intro st i q h
-    cases op with
-    | enq l r es =>
-      simp only [runFrom]
-      cases l with
-      | false =>
-        obtain ⟨a, ha⟩ := ih (enqueue st false r es) (i + 1) (q ++ [(r, es)])
-          ⟨h.cached, h.other, h.term, by simp [enqueue, h.queue], h.inst, h.fresh, h.otherFin⟩
-        exact ⟨(r, es) :: a, by simpa using ha⟩
-      | true =>
-        exact ih (enqueue st true r es) (i + 1) q
-          ⟨h.cached, h.other, h.term, by simp [enqueue, h.queue], h.inst, h.fresh, h.otherFin⟩
-    | pump =>
-      simp only [runFrom]
-      have hp := pump_rightDone (pumpFuel st) st h
-      split
-      · obtain ⟨a, ha⟩ := ih (pump (pumpFuel st) st).1 (i + 1) q hp
-        exact ⟨a, ha⟩
-      · exact ⟨[], by simpa using hp⟩
-
 /-! ## Replay -/
 
 /-- `k` consecutive calls of `select` (the receiver never looks at the `Start` part of the state) -/
@@ -338,6 +233,8 @@ structure ReplayingL (st : State α) : Prop where
   notFirst : st.firstMessage = false
   more : st.left.cachePointer < st.left.cache.length
   alive : st.right.missingTerm ≠ 0
+  /-- the loop side has not started terminating (condition added by 6c83288) -/
+  untouched : st.right.missingTerm = st.right.instances
 
 theorem select_replayingL {st : State α} (h : ReplayingL st) :
     select st = ({ st with left := st.left.nextCached.1 },
@@ -351,7 +248,7 @@ theorem select_replayingL {st : State α} (h : ReplayingL st) :
   unfold select
   rw [h1, h2]
   unfold selectBody
-  simp [h.notFirst, h.cached, h.full, hcf, Side.nextCached]
+  simp [h.notFirst, h.cached, h.full, hcf, Side.nextCached, h.untouched]
 
 theorem nextCached_pointer (s : Side α) : s.nextCached.1.cachePointer = s.cachePointer + 1 := by
   unfold Side.nextCached; simp only; split <;> rfl
@@ -385,7 +282,7 @@ theorem replayL_whole_cache : ∀ (k : Nat) (st : State α), ReplayingL st →
     by_cases hlast : st.left.cachePointer + 1 < st.left.cache.length
     · have h' : ReplayingL ({ st with left := st.left.nextCached.1 } : State α) :=
         ⟨by simp [h.cached], by simp [h.term], by simp [nextCached_full, h.full], h.notFirst,
-         by simp [nextCached_pointer]; exact hlast, h.alive⟩
+         by simp [nextCached_pointer]; exact hlast, h.alive, h.untouched⟩
       obtain ⟨i1, i2, i3, i4, i5, i6, i7⟩ := ih _ h' (by simp [nextCached_pointer]; omega)
       simp only [nextCached_cache, nextCached_pointer] at i1 i4 i5
       refine ⟨?_, i2, i3, ?_, ?_, i6, i7⟩
